@@ -4,7 +4,7 @@
 set -euo pipefail
 cd "$(dirname "$0")/.."
 mkdir -p build/tmp replays evidence
-VARIANTS="prod san hook trng-getrandom trng-getentropy trng-syscall trng-devurandom cfg-gcc-O2-vol cfg-clang-O3-vol cfg-gcc-O0-bz"
+VARIANTS="prod san hook ndebug trng-getrandom trng-getentropy trng-syscall trng-devurandom cfg-gcc-O2-vol cfg-clang-O3-vol cfg-gcc-O0-bz"
 for v in $VARIANTS; do tools/build.sh "$v" >/dev/null; done
 S=$(tools/build.sh prod)
 fail=0
